@@ -530,6 +530,11 @@ pub fn prop_encdec(imp: &dyn PImpl, key: &Key, m: &B, r: &B, out: &mut Out, coq:
         if *m != bu(0) && *r != bu(1) {
             out.nontrivial += 1;
         }
+        // the randomiser is recovered from the ciphertext itself (Props/C07.v nroot_of_ciphertext, encrypt_injective)
+        if r < &key.n {
+            let z = &cv % &key.n;
+            expect(out, key, &prop, "extract_n_root(encrypt(m,r) mod N) vs r", &imp.nroot(&z), &R::V(r.clone()));
+        }
     }
     if coq {
         out.lines.push(format!("dec {} {}", hx(&cv), d.show()));
